@@ -6,6 +6,8 @@
                real table's content, vs it_intern
      CMemo   : results of a sequential script of memoize Do / Release and the final cache content
                (owner sets per key, through a verif hook) vs mm_step run to completion per operation
+     CCw     : a sequential script of Writes through the real concurrentWriter, some made while the
+               file size limit makes every index write fail: index bytes and per-Write error flags
      CAudit  : the bytes of a serial audit log written by concurrent writers must be explained by
                the model under some schedule (au_explain, proved sound) *)
 From Verif Require Import Base Conc.
@@ -17,7 +19,8 @@ Inductive case :=
   | CIntern (tbl : list (nat * bytes)) (chains : list (list bytes)) (ids : list (list nat))
   | CMemo (errkeys : list nat) (ops : list mm_sop) (res : list (nat * option nat * bool))
           (snap : list (nat * list nat))
-  | CAudit (writers : list (list bytes)) (log : bytes).
+  | CAudit (writers : list (list bytes)) (log : bytes)
+  | CCw (writes : list (list bytes * bool)) (index : bytes) (results : list bool).
 
 Definition c6_kv_eqb (a b : bytes * bytes) : bool := bytes_eqb (fst a) (fst b) && bytes_eqb (snd a) (snd b).
 Definition c6_count (x : bytes * bytes) (l : list (bytes * bytes)) : nat := length (filter (c6_kv_eqb x) l).
@@ -71,6 +74,9 @@ Definition ok (c : case) : bool :=
     c6_list_eqb c6_res_eqb r res && c6_list_eqb c6_snap_eqb (c6_sort_snap (mm_snapshot s)) (c6_sort_snap snap)
   | CAudit writers log =>
     match au_explain (S (length log)) writers log with Some _ => true | None => false end
+  | CCw writes index results =>
+    let '(s, res) := cw_seq writes in
+    bytes_eqb (cw_index s) index && c6_list_eqb Bool.eqb res results && negb (cw_locked s)
   end.
 
 Definition mismatches (l : list case) : list nat := mismatches_of ok l.
